@@ -717,6 +717,8 @@ func (s *storage) Shrink(stopAfter time.Duration) bool {
 			}
 			if !table.isFree && table.Len() == 0 {
 				s.archetypes[table.archetype].FreeTable(table)
+				s.archetypes[table.archetype].removeFromTargets(table)
+				s.cache.removeTable(table)
 				anyFound = true
 			}
 		}
